@@ -67,7 +67,7 @@ LAST_CONTOUR = []
 
 def floors(tier):
     return {
-        "comparisons": {"drift.parameter_values": 150, "drift.cost": 150, "drift.parameter_errors": 150, "did_fit": 150, "fixed-limited": 150, "minimizer==graph": 150, "idempotent": 40, "drift.after-failed-query": 10, "minimizer==graph.after-limit_parameter": 60},
+        "comparisons": {"drift.parameter_values": 150, "drift.cost": 150, "drift.parameter_errors": 150, "did_fit": 150, "fixed-limited": 150, "minimizer==graph": 150, "idempotent": 40, "drift.after-failed-query": 10, "minimizer==graph.after-limit_parameter": 60, "minimizer==graph.after-unlimit_parameter": 15},
         "ops": [q for q in QUERIES],
         "reach": ["%s:%s" % a for a in ANCHORS],
         "sets": {"query_bigrams": 80},
@@ -542,7 +542,24 @@ def run_case(ctx, case):
         # ---- after the last query: a configuration call that makes the backend start over from the settings it keeps for itself
         # (wide limits on a free parameter) must find those settings at the fit result, not where an excursion left them
         cand = [n for n in free if n not in case["limited"]]
-        if cand and sum(ctx._wit_per_key.values()) == nv0:
+        lim = [n for n in free if n in case["limited"]]
+        if lim and sum(ctx._wit_per_key.values()) == nv0 and case["arg_seed"] % 2:
+            # ... or the removal of a limit: the backend's own record of the limits went through its save / restore on every query
+            n = lim[case["arg_seed"] // 2 % len(lim)]
+            ctx.op("unlimit_parameter.after-queries")
+            try:
+                fit.unlimit_parameter(n)
+                pg = np.array(fit.parameter_values, dtype=float)
+                pm = np.array(fit._fitter.minimizer.parameter_values, dtype=float)
+                d = {"word": case["word"], "unlimited_afterwards": n}
+                devg = np.abs(pg - s0["p"]) / sig
+                ctx.check("drift.after-unlimit_parameter", bool(np.all(devg <= ptol)), lambda: dict(d, before=s0["p"], after=pg, deviation_in_sigma=devg, tolerance=ptol))
+                devm = np.abs(pm - pg) / sig
+                ctx.check("minimizer==graph.after-unlimit_parameter", bool(np.all(devm <= 1e-9)), lambda: dict(d, minimizer=pm, graph=pg, difference_in_sigma=devm))
+                ctx.check("limits.after-unlimit_parameter", n not in dict_limits(fit), lambda: dict(d, limits=dict_limits(fit)))
+            except Exception:
+                ctx.violation(None, "unlimit_parameter.after-queries.no-exception", {"word": case["word"], "unlimited_afterwards": n, "traceback": fmt_exc()})
+        elif cand and sum(ctx._wit_per_key.values()) == nv0:
             n = cand[int(rng.integers(0, len(cand)))]
             k = names.index(n)
             w = 20.0 * sig[k] + 1.0
@@ -561,6 +578,10 @@ def run_case(ctx, case):
     finally:
         shutil.rmtree(tmpdir, ignore_errors=True)
     return nontrivial
+
+
+def dict_limits(fit):
+    return {n: [float(a), float(b)] for n, (a, b) in dict(fit._fitter.limited_parameters).items()} if hasattr(fit._fitter, "limited_parameters") else {}
 
 
 def classify_mini(q, minimizer):
